@@ -136,8 +136,11 @@ def rule_K_MUTATOR(ctx):
         if "clear" in calls and "push_str" in calls:
             cl = hir.find_calls(b, "clear")[0]
             ps = hir.find_calls(b, "push_str")[0]
+            # ... unconditionally: the arm is clear, push_str, Ok(()) and nothing else -- no branch, no early return (seed c17-o: an
+            # `if new_name.is_empty() { return Ok(()) }` in front left the old name in place)
+            ctl = [n_ for n_ in hir.walk(b) if n_.get("k") in ("If", "Match", "Ret", "Loop", "Break", "Continue")]
             ok = field_path(cl["recv"]) == (binds[0],) and field_path(ps["recv"]) == (binds[0],) and field_path(ps["args"][0]) == (san_p,) \
-                and cl["line"] <= ps["line"] and hir.is_unit_ok(t)
+                and cl["line"] <= ps["line"] and hir.is_unit_ok(t) and not ctl and calls.count("clear") == 1 and calls.count("push_str") == 1
             if ok:
                 got_named.add(v)
         elif hir.is_unit_ok(t) and not [c for c in calls if c not in ("Ok",)]:
